@@ -300,7 +300,7 @@ func suiteConcurrent(c *Ctx) error {
 		var scans, flips atomic.Int64
 		var badMu sync.Mutex
 		var bad []string
-		for g := 0; g < runtime.GOMAXPROCS(0); g++ {
+		for g := 0; g < 8*runtime.GOMAXPROCS(0); g++ { // more scanners than cores: some are always parked mid-call
 			wg.Add(1)
 			g := g
 			go func() {
